@@ -572,7 +572,8 @@ func c18CheckWriterCore(p *Prog, r *Report, fn *ssa.Function, name string, cfg *
 					}
 					break
 				}
-				if id, _, ok := fieldOfValue(c18ThroughPureCall(c18Root(cond))); ok && id.String() == flagField && !truth {
+				cv, _ := g.callerValue(e.from.fr, cond)
+				if id, _, ok := fieldOfValue(c18ThroughPureCall(c18Root(cv))); ok && id.String() == flagField && !truth {
 					return true
 				}
 			}
@@ -580,8 +581,30 @@ func c18CheckWriterCore(p *Prog, r *Report, fn *ssa.Function, name string, cfg *
 		if !e.hasFact || !e.factNil {
 			return false
 		}
-		id, _, ok := fieldOfValue(c18ThroughPureCall(e.factVal))
+		// the tested value may be the caller's prev handed down as an argument (`retire(d.prev)`)
+		v, _ := g.callerValue(e.factFr, e.factVal)
+		id, _, ok := fieldOfValue(c18ThroughPureCall(v))
 		return ok && id.String() == cfg.Prev
+	}
+	// honesty: a nil / "" test on a value of prev's type that could not be attributed to the prev field
+	// (it came through something the graph does not resolve) may be the "no previous version" test
+	unattributed := ""
+	for _, n := range g.nodes {
+		for _, e := range n.succs {
+			if !e.hasFact || !e.factNil || prevNilEdge(e) {
+				continue
+			}
+			v, _ := g.callerValue(e.factFr, e.factVal)
+			if _, _, isField := fieldOfValue(c18ThroughPureCall(v)); isField {
+				continue
+			}
+			if _, isConst := v.(*ssa.Const); isConst {
+				continue // fully traced: a constant, not the field
+			}
+			if pt := c18FieldType(p, tkey, cfg.Prev); pt != nil && types.Identical(v.Type(), pt) && e.from.in != nil {
+				unattributed = p.Pos(instrPos(e.from.in))
+			}
+		}
 	}
 	loop := c18FindFileLoop(g, ops, vdir)
 	must := &c18Flow{g: g, Must: true,
@@ -826,9 +849,13 @@ func c18CheckWriterCore(p *Prog, r *Report, fn *ssa.Function, name string, cfg *
 			"every nil return is dominated by the success edge of the publishing rename",
 			"the function can return nil (at "+at+") although the rename over the target did not happen or failed: the caller is told the new set is in place while the target still shows the old one (or nothing)")
 		if nPrevRemove > 0 {
-			check(bit(st, bPrevDone), R.Prev, name+" return nil => previous version removed or none",
-				"on every successful path prev was nil or was removed",
-				"a successful return (at "+at+") is reachable without removing the previous version directory although prev was set: old versions accumulate")
+			if !bit(st, bPrevDone) && unattributed != "" {
+				r.Undecide("%s return nil => previous version removed or none: a nil return is reachable without a recognised removal of the previous version, but the test at %s compares a value of the previous-version field's type that the check could not trace to that field: it may be the 'no previous version' test", name, unattributed)
+			} else {
+				check(bit(st, bPrevDone), R.Prev, name+" return nil => previous version removed or none",
+					"on every successful path prev was nil or was removed",
+					"a successful return (at "+at+") is reachable without removing the previous version directory although prev was set: old versions accumulate")
+			}
 		}
 		check(bit(st, bPrevSet) && (flagField == "" || bit(st, bFlagSet)), R.Prev, name+" return nil => prev = this version directory",
 			"prev is set to the directory published by this call on every successful path",
@@ -1487,4 +1514,34 @@ func c18ErrCombinator(v ssa.Value) []ssa.Value {
 		out = append(out, c18Root(e))
 	}
 	return out
+}
+
+// c18FieldType: the type of a field (FieldID.String() form) of the state type or a struct nested in it.
+func c18FieldType(p *Prog, tkey, field string) types.Type {
+	if tkey == "" {
+		return nil
+	}
+	i := strings.LastIndex(tkey, ".")
+	for _, pkg := range p.Pkgs {
+		if pkg.Types == nil || i < 0 || pkg.PkgPath != tkey[:i] {
+			continue
+		}
+		for key := range c18StateTypes(p, tkey) {
+			j := strings.LastIndex(key, ".")
+			tn, ok := pkg.Types.Scope().Lookup(key[j+1:]).(*types.TypeName)
+			if !ok {
+				continue
+			}
+			st, ok := tn.Type().Underlying().(*types.Struct)
+			if !ok {
+				continue
+			}
+			for k := 0; k < st.NumFields(); k++ {
+				if (FieldID{key, st.Field(k).Name()}).String() == field {
+					return st.Field(k).Type()
+				}
+			}
+		}
+	}
+	return nil
 }
